@@ -16,6 +16,7 @@ Record case := {
   e_fit1 : option Lsq.case; e_fit2 : option Lsq.case;     (* certified fits of the problem and of its twin *)
   e_hull1 : list bool; e_hull2 : list bool;               (* in_hull answers on margin targets *)
   e_rng1 : option (vec * vec); e_rng2 : option (vec * vec);   (* range_of_solutions ends *)
+  e_sp1 : mat; e_sp2 : mat;                               (* equally spaced solutions returned on request ([] if not asked) *)
   e_tolp : Q; e_tolr : Q }.
 Fixpoint bools_eq (a b : list bool) : bool :=
   match a, b with [], [] => true | x :: a', y :: b' => Bool.eqb x y && bools_eq a' b' | _, _ => false end.
@@ -34,4 +35,6 @@ Definition verdict (c : case) : bool :=
       vclose (e_tolr c) (e_tolr c) (twinx (e_s c) mn1) mn2 && vclose (e_tolr c) (e_tolr c) (twinx (e_s c) mx1) mx2
   | None, None => true
   | _, _ => false
-  end.
+  end &&
+  (* every sampled solution of the twin is the corresponding sampled solution divided by s *)
+  mclose (e_tolr c) (e_tolr c) (map (twinx (e_s c)) (e_sp1 c)) (e_sp2 c).
